@@ -371,3 +371,6 @@ func short(h string) string {
 	}
 	return h
 }
+
+// Short is the 10-character prefix used for hashes in traces.
+func Short(h string) string { return short(h) }
